@@ -7,7 +7,8 @@
    The variables are the entries of the TensorDict the property names
    (rec_current, rec_best, cost_current, cost_bsf, reward); rec0, hist, pbsf, seenMin, rsum
    are history variables from which the invariants recompute the stated quantities.
-   Family: JSON list of [id, kind, n, K, D, depth, jump, first] (integer distance matrix D).
+   Family: JSON list of [id, kind, n, K, D, depth, jump, first, ext] (integer distance matrix D; ext = sequence of
+   EXTERNAL tours the state may be moved to with env.step_to_solution(td, tour): action JumpTo, history entry <<-2>> \o tour).
    Initial states: every instance x every (precedence-feasible) tour.
    Next: every move admitted by the environment's move mask (KOptOps!Moves / RuinRepairOps!RRMoves).
    Invariants never halt TLC: a failing clause prints <<"MODELFAIL", clause, id, rec0, hist>>;
@@ -26,6 +27,8 @@ Tours(i)             == IF IsPDP(i) THEN AllPDPTours(i.n) ELSE AllTours(i.n)
 \* C09, first sentence: a single cycle through all nodes, each pickup before its delivery
 Valid(i, rec) == IsSingleCycle(rec) /\ (IsPDP(i) => PrecedenceOK(rec, i.n \div 2))
 Jump == <<0 - 1>>
+JumpTo(t) == <<0 - 2>> \o t
+IsJumpAct(a) == a[1] < 0
 
 Init == /\ inst \in ToSetU(Family)
         /\ rec0 \in Tours(inst)
@@ -48,6 +51,8 @@ Next == /\ Len(hist) < inst.depth
         /\ Valid(inst, cur)                      \* the property is about moves applied to valid tours
         /\ \/ \E a \in MoveSet(inst, cur) : Do(a, MoveApply(inst, cur, a))
            \/ inst.jump /\ Do(Jump, best)
+           \* an external solution (any valid tour, better or worse than everything seen) is book-kept like a move
+           \/ \E k \in 1..Len(inst.ext) : Valid(inst, inst.ext[k]) /\ Do(JumpTo(inst.ext[k]), inst.ext[k])
 Spec == Init /\ [][Next]_vars
 
 MFail(c) == PrintT(<<"MODELFAIL", c, inst.id, rec0, hist>>)
@@ -60,7 +65,7 @@ C_Mono     == cbsf > pbsf => MFail("bsf-monotone")
 C_Reward   == rew # pbsf - cbsf => MFail("reward-decrease")
 C_Sum      == rsum # TourLen(inst.D, rec0) - cbsf => MFail("reward-sum")
 \* well-definedness of scatter_ with duplicate indices in the k-opt operator
-C_Clash    == (~IsPDP(inst) /\ inst.K > 2 /\ hist # <<>> /\ Last(hist) # Jump /\ KClash(inst.K, Last(hist)))
+C_Clash    == (~IsPDP(inst) /\ inst.K > 2 /\ hist # <<>> /\ ~IsJumpAct(Last(hist)) /\ KClash(inst.K, Last(hist)))
               => MFail("scatter-clash")
 
 (* what the moves mean (sanity of the transcribed operators against the textbook definitions; MODELFAIL
@@ -86,7 +91,7 @@ RRMeaning(pre, p, f, s, post) ==
 Meaning(a) == IF IsPDP(inst) THEN RRMeaning(prev, a[1], a[2], a[3], cur)
               ELSE IF inst.K = 2 THEN TwoOptMeaning(prev, a[1], a[2], cur)
               ELSE KMeaning(prev, inst.K, a, cur)
-C_Meaning == (hist # <<>> /\ Last(hist) # Jump /\ ~Meaning(Last(hist))) => MFail("move-meaning")
+C_Meaning == (hist # <<>> /\ ~IsJumpAct(Last(hist)) /\ ~Meaning(Last(hist))) => MFail("move-meaning")
 
 Emit == PrintT(<<"S", inst.id, rec0, hist, cur, best, ccur, cbsf, rew>>)
 =============================================================================
